@@ -327,7 +327,8 @@ def runSched (j : Json) : Json :=
                          ("milestone_edges", Json.num (JsonNumber.fromNat milePairs.length)), ("milestone_fail", Json.num (JsonNumber.fromNat mileFail.length))]
   Json.mkObj [("end", Json.num (JsonNumber.fromInt (Elab.abs p e.stop))), ("wf", Json.bool (wfCheck e && treeCheck e)), ("size", Json.num (JsonNumber.fromInt e.size)), ("thm", thm),
               ("tasks", Json.arr tasks.toArray), ("ledger", Json.arr led.toArray), ("counters", Json.arr cnt.toArray),
-              ("warnings", Json.arr (σ.warnings.map Json.str).toArray)]
+              ("warnings", Json.arr (σ.warnings.map Json.str).toArray),
+              ("order", Json.arr (order.reverse.map (fun t => Json.num (JsonNumber.fromNat t))).toArray)]
 
 /-- C09: the base project and the project with one more task; are the hypotheses of
     `C09.lowest_priority_intruder_harmless_checked` met, and does its conclusion evaluate to true on the two model runs? -/
